@@ -218,7 +218,7 @@ func TestC12(t *testing.T) {
 	}
 	h.Require(req...)
 	maxPerms := h.Pick(6, 24)
-	vlib.Rapid(h, "inheritance-graphs-in-all-orders", h.N(5000, 250000), func(t *rapid.T) c10Case {
+	vlib.Rapid(h, "inheritance-graphs-in-all-orders", h.N(5000, 40000), func(t *rapid.T) c10Case {
 		doc := vlib.GenDoc(t, vlib.GenOpts{Inheritance: true, MaxTypes: 7})
 		_, units := doc.Blocks()
 		return c10Case{Doc: doc, Perms: genPerms(t, len(units), maxPerms)}
